@@ -1,3 +1,110 @@
 import TlsModel.Proto
-/- driver stub for C20: replaced when the model exists -/
-def main : IO Unit := Tls.protoMain (fun _ => none)
+import TlsModel.Suites
+/-
+  Driver for C20 (suite numbers decimal, lists comma separated, `-` = empty list, `None` = Python None).
+    cs s                         -> keyLength ivLength factory|None           | AssertionError
+    ms s                         -> macLength digest|None                     | AssertionError
+    obj factory keyLength        -> name isAEAD isBlock blockSize tagLength   | AssertionError | ValueError
+    prf s                        -> sha256 32 | sha384 48
+    calcprf vmaj vmin s          -> PRF_SSL|PRF|PRF_1_2|PRF_1_2_SHA384        | AssertionError
+    ffv minmaj minmin maxmaj maxmin suites            -> suites
+    fsl vmaj vmin macs ciphers kexs suites            -> suites      (_filterSuites)
+    get getter vmaj vmin macs ciphers kexs            -> suites      (CipherSuite.get*Suites)
+    ffc alg|None suites                               -> suites      (filter_for_certificate)
+    ccn s / cmn s                -> canonical cipher / MAC name | None
+    ckex s                       -> class expectsCertificate expectsSKE
+    ske s                        -> kind|AssertionError signed
+    skex s                       -> class sendsCertificate                     | AssertionError
+    obs s vmaj vmin client|server-> rendered Obs | None      (modelObs)
+    spec s vmaj vmin             -> rendered Obs | None      (specObsOf)
+    sem s                        -> rendered SuiteSem | None (semOf: generated char codes)
+    parse NAME                   -> rendered SuiteSem | None (parseIana on the string)
+    name s                       -> registered name | None
+    namecodes                    -> ok | bad   (ietfNameCodes is ietfNames, character by character)
+    neg client|server vmaj vmin  -> suites     (negotiableAt)
+    selunion                     -> suites     (modelSelectorUnion)
+-/
+open Tls Tls.Suites Tls.Gen.Suites
+
+def natsOut (l : List Nat) : String := natList l
+
+def parseNats (s : String) : Option (List Nat) :=
+  if s == "-" then some [] else (s.splitOn ",").mapM String.toNat?
+
+/-- names outside the vocabulary are ignored by `_filterSuites` (no `in` test mentions them) -/
+def parseNames {α} (all : List α) (str : α → String) (s : String) : List α :=
+  if s == "-" then [] else (s.splitOn ",").filterMap (ofStr all str)
+
+def exOut {α} (f : α → String) : Except String α → String
+  | .ok a => f a
+  | .error e => e
+
+def parseRole : String → Option Role
+  | "client" => some .client
+  | "server" => some .server
+  | _ => none
+
+def handle : List String → Option String
+  | ["cs", s] => do
+    let s ← s.toNat?
+    some (exOut (fun c => s!"{c.keyLength} {c.ivLength} {optStr Factory.str c.factory}") (getCipherSettings s))
+  | ["ms", s] => do
+    let s ← s.toNat?
+    some (exOut (fun (m : Nat × Option Digest) => s!"{m.1} {optStr Digest.str m.2}") (getMacSettings s))
+  | ["obj", f, k] => do
+    let f ← ofStr Factory.all Factory.str f
+    let k ← k.toNat?
+    some (exOut (fun o => s!"{o.name.str} {boolStr o.isAEAD} {boolStr o.isBlockCipher} {o.blockSize} {o.tagLength}")
+      (factoryObj f k))
+  | ["prf", s] => do
+    let s ← s.toNat?
+    let p := prfParams s
+    some s!"{p.1.str} {p.2}"
+  | ["calcprf", a, b, s] => do
+    let s ← s.toNat?
+    some (exOut PrfFn.str (calcKeyPrf (← a.toNat?, ← b.toNat?) s))
+  | ["ffv", a, b, c, d, l] => do
+    let l ← parseNats l
+    some (natsOut (filterForVersion l (← a.toNat?, ← b.toNat?) (← c.toNat?, ← d.toNat?)))
+  | ["fsl", a, b, m, c, k, l] => do
+    let l ← parseNats l
+    some (natsOut (filterSuites l (parseNames MName.all MName.str m) (parseNames CName.all CName.str c)
+      (parseNames KName.all KName.str k) (← a.toNat?, ← b.toNat?)))
+  | ["get", g, a, b, m, c, k] => do
+    let g ← ofStr Getter.all Getter.str g
+    some (natsOut (getter g (parseNames MName.all MName.str m) (parseNames CName.all CName.str c)
+      (parseNames KName.all KName.str k) (← a.toNat?, ← b.toNat?)))
+  | ["ffc", alg, l] => do
+    let l ← parseNats l
+    let alg ← if alg == "None" then some none else (ofStr CertAlg.all CertAlg.str alg).map some
+    some (natsOut (filterForCertificate l alg))
+  | ["ccn", s] => do some (optStr CName.str (canonicalCipherName (← s.toNat?)))
+  | ["cmn", s] => do some (optStr MName.str (canonicalMacName (← s.toNat?)))
+  | ["ckex", s] => do
+    let s ← s.toNat?
+    some s!"{(clientKexClass s).str} {boolStr (clientExpectsCertificate s)} {boolStr (clientExpectsSKE s)}"
+  | ["ske", s] => do
+    let s ← s.toNat?
+    some s!"{exOut SkeKind.str (skeKind s)} {boolStr (skeSigned s)}"
+  | ["skex", s] => do
+    let s ← s.toNat?
+    some (exOut (fun (p : KexClass × Bool) => s!"{p.1.str} {boolStr p.2}") (serverKexClass s))
+  | ["obs", s, a, b, r] => do
+    let s ← s.toNat?
+    let r ← parseRole r
+    some (optStr Obs.render (modelObs s (← a.toNat?, ← b.toNat?) r))
+  | ["spec", s, a, b] => do
+    let s ← s.toNat?
+    some (optStr Obs.render (specObsOf s (← a.toNat?, ← b.toNat?)))
+  | ["sem", s] => do some (optStr SuiteSem.render (semOf (← s.toNat?)))
+  | ["parse", n] => some (optStr SuiteSem.render (parseIana n))
+  | ["name", s] => do some (optStr id (ietfName (← s.toNat?)))
+  | ["namecodes"] =>
+    some (if ietfNames.map (fun p => (p.1, p.2.toList.map Char.toNat)) == ietfNameCodes then "ok" else "bad")
+  | ["neg", r, a, b] => do
+    let r ← parseRole r
+    some (natsOut (negotiableAt r (← a.toNat?, ← b.toNat?)))
+  | ["selunion"] => some (natsOut modelSelectorUnion)
+  | _ => none
+
+def main : IO Unit := protoMain handle
